@@ -384,3 +384,353 @@ Qed.
 
 Lemma closed_set_table s a t : state_closed s -> table_ok (hl s) t -> state_closed (set_table s a t).
 Proof. intros Hs Ht. unfold set_table. apply closed_hset; assumption. Qed.
+
+(* ------------------------------------------------------------------ *)
+(* 4. results                                                          *)
+(* ------------------------------------------------------------------ *)
+
+(* [s'] is closed and its heap has at least [n0] cells; no claim about the state of an abort *)
+Definition okm (n0 : nat) (s' : state) : Prop := state_closed s' /\ n0 <= hl s'.
+Definition sres_c (n0 : nat) (r : sres) : Prop :=
+  match r with SNext _ s' | SExit s' | SErr _ _ s' => okm n0 s' | SStop _ _ => True end.
+Definition rres_c (n0 : nat) (r : rres) : Prop :=
+  match r with ROk s' | RErr _ _ s' => okm n0 s' | RStop _ _ => True end.
+Definition nres_c (n0 : nat) (r : nres) : Prop :=
+  match r with NOk v s' => okm n0 s' /\ vok (hl s') v | NErr _ s' => okm n0 s' | NStop _ _ => True end.
+
+Lemma okm_le n0 n1 s : n0 <= n1 -> okm n1 s -> okm n0 s.
+Proof. intros L [A B]. split; [exact A|lia]. Qed.
+Lemma sres_c_le n0 n1 r : n0 <= n1 -> sres_c n1 r -> sres_c n0 r.
+Proof. intros L. destruct r; cbn [sres_c]; auto; apply okm_le; exact L. Qed.
+Lemma rres_c_le n0 n1 r : n0 <= n1 -> rres_c n1 r -> rres_c n0 r.
+Proof. intros L. destruct r; cbn [rres_c]; auto; apply okm_le; exact L. Qed.
+Lemma nres_c_le n0 n1 r : n0 <= n1 -> nres_c n1 r -> nres_c n0 r.
+Proof.
+  intros L. destruct r; cbn [nres_c]; auto; [|apply okm_le; exact L].
+  intros [A B]. split; [eapply okm_le; eauto|exact B].
+Qed.
+
+(* the same facts with heap lengths *)
+Lemma spop_c s s1 v : spop s = (s1, v) -> state_closed s -> state_closed s1 /\ hl s1 = hl s /\ vok (hl s) v.
+Proof. intros H Hs. destruct (spop_closed _ _ _ H Hs) as (A & B & C). unfold hl. rewrite B. auto. Qed.
+Lemma spush_c s v s1 : spush s v = Some s1 -> state_closed s -> vok (hl s) v -> state_closed s1 /\ hl s1 = hl s.
+Proof. intros H Hs Hv. destruct (spush_closed _ _ _ H Hs Hv) as (A & B). unfold hl. rewrite B. auto. Qed.
+Lemma write_local_c s off h v s1 :
+  write_local s off h v = Some s1 -> state_closed s -> vok (hl s) v -> state_closed s1 /\ hl s1 = hl s.
+Proof. intros H Hs Hv. destruct (write_local_closed _ _ _ _ _ H Hs Hv) as (A & B). unfold hl. rewrite B. auto. Qed.
+Lemma sclear_until_c s h s1 v :
+  sclear_until s h = (s1, v) -> state_closed s -> pre_ok (hl s) (sd s) h ->
+  state_closed s1 /\ hl s1 = hl s /\ vok (hl s) v.
+Proof. intros H Hs Hp. destruct (sclear_until_closed _ _ _ _ H Hs Hp) as (A & B & C). unfold hl. rewrite B. auto. Qed.
+Lemma spop_w_offset_c s off s1 v :
+  spop_w_offset s off = (s1, v) -> state_closed s -> state_closed s1 /\ hl s1 = hl s /\ vok (hl s) v.
+Proof. intros H Hs. destruct (spop_w_offset_closed _ _ _ _ H Hs) as (A & B & C). unfold hl. rewrite B. auto. Qed.
+Lemma push_frame_c s f s1 :
+  push_frame s f = Some s1 -> state_closed s -> frame_ok (hl s) (sd s) f ->
+  state_closed s1 /\ hl s1 = hl s /\ sd s1 = sd s /\ st_stack s1 = st_stack s.
+Proof.
+  intros H Hs Hf. destruct (push_frame_closed _ _ _ H Hs Hf) as (A & B). unfold hl. rewrite B.
+  unfold push_frame in H. destruct (_ <=? _); [discriminate|]. injection H as <-. auto.
+Qed.
+Lemma hl_spop_n s n : hl (spop_n s n) = hl s. Proof. reflexivity. Qed.
+Lemma hl_log_push s e : hl (log_push s e) = hl s. Proof. reflexivity. Qed.
+Lemma hl_set_table s a t : hl (set_table s a t) = hl s.
+Proof. unfold hl, set_table, hset. cbn [st_heap set_heap]. apply upd_length. Qed.
+Lemma hl_hset s a o : hl (set_heap s (hset (st_heap s) a o)) = hl s.
+Proof. unfold hl, hset. cbn [st_heap set_heap]. apply upd_length. Qed.
+
+(* objects that hold no address *)
+Definition flat_obj (o : obj) : Prop :=
+  match o with OStr _ | OFun _ _ | ONative _ => True | OClo _ _ ups => ups = [] | OTable t => t = mkTable [] [] | OUp _ => False end.
+Lemma flat_obj_ok n d o : flat_obj o -> obj_ok n d o.
+Proof.
+  destruct o as [t| | | |h ar ups|u]; cbn; auto; try contradiction.
+  - intros ->. split; constructor.
+  - intros ->. constructor.
+Qed.
+Lemma salloc_flat s o s1 a :
+  salloc s o = (s1, a) -> state_closed s -> flat_obj o ->
+  state_closed s1 /\ hl s1 = S (hl s) /\ a = N.of_nat (hl s) /\ sd s1 = sd s /\ st_stack s1 = st_stack s /\
+  st_calls s1 = st_calls s.
+Proof. intros H Hs Ho. eapply closed_salloc; eauto. apply flat_obj_ok. exact Ho. Qed.
+Lemma aok_new n : aok (S n) (N.of_nat n).
+Proof. unfold aok. rewrite Nat2N.id. lia. Qed.
+
+(* forward chaining over the helpers of the instruction functions *)
+Ltac vtac :=
+  first [ exact I | assumption
+        | apply speek_vok; assumption | apply slast_vok; assumption | apply sget_vok; assumption
+        | (eapply vok_mono; [|eassumption]; lia)
+        | (eapply vok_mono; [|apply speek_vok; eassumption]; lia)
+        | (cbn [vok]; match goal with H : ?a = N.of_nat ?n |- aok _ ?a => rewrite H; unfold aok; rewrite Nat2N.id; lia end) ].
+
+Ltac flat_tac := first [ exact I | reflexivity | (destruct (_ =? _)%N; first [exact I | reflexivity]) ].
+
+Ltac fwd :=
+  repeat match goal with
+  | H : spop ?s = (_, _), Hs : state_closed ?s |- _ =>
+      let A := fresh "Hc" in let B := fresh "Hh" in let C := fresh "Hv" in
+      destruct (spop_c _ _ _ H Hs) as (A & B & C); clear H
+  | H : spop_w_offset ?s _ = (_, _), Hs : state_closed ?s |- _ =>
+      let A := fresh "Hc" in let B := fresh "Hh" in let C := fresh "Hv" in
+      destruct (spop_w_offset_c _ _ _ _ H Hs) as (A & B & C); clear H
+  | H : spush ?s ?v = Some _, Hs : state_closed ?s |- _ =>
+      let A := fresh "Hc" in let B := fresh "Hh" in
+      destruct (spush_c _ _ _ H Hs ltac:(vtac)) as (A & B); clear H
+  | H : write_local ?s _ _ ?v = Some _, Hs : state_closed ?s |- _ =>
+      let A := fresh "Hc" in let B := fresh "Hh" in
+      destruct (write_local_c _ _ _ _ _ H Hs ltac:(vtac)) as (A & B); clear H
+  | H : salloc ?s ?o = (_, _), Hs : state_closed ?s |- _ =>
+      let A := fresh "Hc" in let B := fresh "Hh" in let C := fresh "Ha" in
+      destruct (salloc_flat _ _ _ _ H Hs ltac:(flat_tac)) as (A & B & C & _); clear H
+  end.
+
+Ltac hl_norm :=
+  repeat first [rewrite hl_spop_n in * | rewrite hl_log_push in * | rewrite hl_set_table in * | rewrite hl_hset in *];
+  unfold hl in *;
+  cbn [st_open st_heap st_calls st_stack st_globals set_stack set_calls set_globals set_heap set_open set_log
+       set_rem tick] in *.
+
+Ltac cl_tac :=
+  repeat first
+    [ assumption
+    | apply closed_set_log | apply closed_log_push | apply closed_set_rem | apply closed_tick | apply spop_n_closed ].
+
+Ltac fin :=
+  cbn [sres_c rres_c nres_c];
+  first [ exact I
+        | (split; [split; [cl_tac|hl_norm; lia]|vtac])
+        | (split; [cl_tac|hl_norm; lia]) ].
+
+(* ------------------------------------------------------------------ *)
+(* 5. instructions                                                     *)
+(* ------------------------------------------------------------------ *)
+Section Step.
+  Variable F : fops.
+  Variable bld : build.
+  Variable P : program.
+  Variable reenter : N -> state -> rres.
+  Hypothesis reenter_ok : forall ip s, state_closed s -> rres_c (hl s) (reenter ip s).
+
+  Lemma push_next_c n0 ip s v : state_closed s -> n0 <= hl s -> vok (hl s) v -> sres_c n0 (push_next ip s v).
+  Proof. unfold push_next. intros Hs L Hv. destruct (spush s v) eqn:E; fwd; fin. Qed.
+
+  (* the value-level operators return no object *)
+  Definition plain_op (op : heap -> value -> value -> vres) : Prop :=
+    forall h a b v, op h a b = VOk v -> forall n, vok n v.
+
+  Lemma arith_plain o : plain_op (arith_op F o).
+  Proof.
+    intros h a b v. unfold arith_op. destruct (cast_match F h a b) as [[[] []]|]; try discriminate;
+      try (intros E; injection E as <-; intros; exact I).
+    destruct (i64_result _); [|discriminate]. intros E; injection E as <-; intros; exact I.
+  Qed.
+  Lemma div_plain : plain_op (div_op F).
+  Proof.
+    intros h a b v. unfold div_op. destruct (cast_match F h a b) as [[[] []]|]; try discriminate;
+      intros E; injection E as <-; intros; exact I.
+  Qed.
+  Lemma eq_plain neg : plain_op (eq_op F neg).
+  Proof. intros h a b v. unfold eq_op. destruct (veq0 F h a b); [|discriminate]. intros E; injection E as <-; intros; exact I. Qed.
+  Lemma less_plain oe : plain_op (less_op F oe).
+  Proof.
+    intros h a b v. unfold less_op. destruct (vcmp F h a b) as [[]| |]; try discriminate;
+      intros E; injection E as <-; intros; exact I.
+  Qed.
+  Lemma bool_plain f : plain_op (bool_op F f).
+  Proof.
+    intros h a b v. unfold bool_op. destruct (as_bool F h a); [|discriminate]. destruct (as_bool F h b); [|discriminate].
+    intros E; injection E as <-; intros; exact I.
+  Qed.
+
+  Lemma binary_op_c ip s op : plain_op op -> state_closed s -> sres_c (hl s) (binary_op ip s op).
+  Proof.
+    intros Hop Hs. unfold binary_op. destruct (spop s) as [s1 b] eqn:E1. destruct (spop s1) as [s2 a] eqn:E2. fwd.
+    destruct (op (st_heap s2) a b) as [v| | |] eqn:Eo; cbn [of_vres]; try exact I.
+    apply push_next_c; [assumption|lia|]. eapply Hop. exact Eo.
+  Qed.
+
+  Ltac pn := apply push_next_c; [cl_tac|hl_norm; lia|try vtac].
+
+  Lemma i_5_c : forall opc ip0 ip s, state_closed s -> sres_c (hl s) (i_5 P opc ip0 ip s).
+  Proof. intros opc ip0 ip s Hs. unfold i_5. destruct (read_le _ _ _); [pn|exact I]. Qed.
+  Lemma i_6_c : forall opc ip0 ip s, state_closed s -> sres_c (hl s) (i_6 P opc ip0 ip s).
+  Proof. intros opc ip0 ip s Hs. unfold i_6. destruct (read_le _ _ _); [pn|exact I]. Qed.
+  Lemma i_8_c : forall opc ip0 ip s, state_closed s -> sres_c (hl s) (i_8 P opc ip0 ip s).
+  Proof.
+    intros opc ip0 ip s Hs. unfold i_8. destruct (op_u32 P ip); [|exact I]. cbv zeta.
+    destruct (read_str _ _); try fin. destruct (salloc s _) as [s1 a] eqn:E. fwd. pn.
+  Qed.
+  Lemma i_31_c : forall opc ip0 ip s, state_closed s -> sres_c (hl s) (i_31 opc ip0 ip s).
+  Proof. intros opc ip0 ip s Hs. unfold i_31. destruct (salloc s _) as [s1 a] eqn:E. fwd. pn. Qed.
+  Lemma i_37_42_c : forall opc ip0 ip s, state_closed s -> sres_c (hl s) (i_37_42 P opc ip0 ip s).
+  Proof.
+    intros opc ip0 ip s Hs. unfold i_37_42. destruct (op_u32 P ip); [|exact I]. destruct (op_u32 P (ip + 4)); [|exact I].
+    cbv zeta. destruct (salloc s _) as [s1 a] eqn:E. fwd. pn.
+  Qed.
+  Lemma i_38_c : forall opc ip0 ip s, state_closed s -> sres_c (hl s) (i_38 P opc ip0 ip s).
+  Proof.
+    intros opc ip0 ip s Hs. unfold i_38. destruct (op_u32 P ip); [|exact I]. cbv zeta.
+    destruct (read_str _ _); try fin. destruct (salloc s _) as [s1 a] eqn:E. fwd. pn.
+  Qed.
+
+  Lemma Forall_repeat {A} (Q : A -> Prop) x k : Q x -> Forall Q (repeat x k).
+  Proof. intros H. induction k; cbn; constructor; auto. Qed.
+
+  Lemma i_17_c : forall opc ip0 ip s, state_closed s -> sres_c (hl s) (i_17 P opc ip0 ip s).
+  Proof.
+    intros opc ip0 ip s Hs. unfold i_17. destruct (op_u32 P ip); [|exact I].
+    destruct (spop s) as [s1 v] eqn:E. fwd. cbv zeta. cbn [sres_c]. split; [|hl_norm; lia].
+    apply closed_set_globals; [assumption|]. apply Forall_upd; [|cbn [gvok]; vtac].
+    destruct (_ <=? _); [|apply Hc]. apply Forall_app. split; [apply Hc|]. apply Forall_repeat. exact I.
+  Qed.
+  Lemma i_18_c : forall opc ip0 ip s, state_closed s -> sres_c (hl s) (i_18 P opc ip0 ip s).
+  Proof.
+    intros opc ip0 ip s Hs. unfold i_18. destruct (op_u32 P ip); [|exact I]. cbv zeta.
+    destruct (nth_error _ _) as [[v|]|] eqn:E; try fin. pn.
+    apply (Forall_nth_error (gvok (hl s)) _ _ _ (sc_globals Hs) E).
+  Qed.
+  Lemma i_19_c : forall opc ip0 ip s, state_closed s -> sres_c (hl s) (i_19 P opc ip0 ip s).
+  Proof.
+    intros opc ip0 ip s Hs. unfold i_19. destruct (op_u32 P ip); [|exact I]. cbv zeta.
+    destruct (top_offset s); [|exact I]. destruct (spop_w_offset s n0) as [s1 v] eqn:E. fwd.
+    destruct (write_local _ _ _ _) eqn:E2; fwd; fin.
+  Qed.
+  Lemma i_20_c : forall opc ip0 ip s, state_closed s -> sres_c (hl s) (i_20 P opc ip0 ip s).
+  Proof.
+    intros opc ip0 ip s Hs. unfold i_20. destruct (op_u32 P ip); [|exact I]. cbv zeta.
+    destruct (top_offset s); [|exact I]. pn.
+  Qed.
+  Lemma i_21_c : forall opc ip0 ip s, state_closed s -> sres_c (hl s) (i_21 opc ip0 ip s).
+  Proof.
+    intros opc ip0 ip s Hs. unfold i_21. destruct (top_offset s) as [off|] eqn:Eo; [|exact I].
+    destruct (sclear_until s off) as [s1 v] eqn:E. cbn [fst].
+    destruct (sclear_until_c _ _ _ _ E Hs (top_offset_pre _ _ Hs Eo)) as (A & B & C). fin.
+  Qed.
+  Lemma i_23_c : forall opc ip0 ip s, state_closed s -> sres_c (hl s) (i_23 opc ip0 ip s).
+  Proof.
+    intros opc ip0 ip s Hs. unfold i_23. destruct (spop s) as [s1 b] eqn:E1. destruct (spop s1) as [s2 a] eqn:E2. fwd.
+    destruct (spush s2 b) as [s3|] eqn:E3; [|exact I]. fwd. destruct (spush s3 a) as [s4|] eqn:E4; [|exact I]. fwd. fin.
+  Qed.
+  Lemma i_27_c : forall opc ip0 ip s, state_closed s -> sres_c (hl s) (i_27 F opc ip0 ip s).
+  Proof.
+    intros opc ip0 ip s Hs. unfold i_27. destruct (spop s) as [s1 v] eqn:E1. fwd.
+    destruct (as_bool _ _ _); [pn|exact I].
+  Qed.
+  Lemma i_28_c : forall opc ip0 ip s, state_closed s -> sres_c (hl s) (i_28 bld P opc ip0 ip s).
+  Proof.
+    intros opc ip0 ip s Hs. unfold i_28. destruct (op_u32 P ip); [|exact I]. destruct (jump_target _ _); fin.
+  Qed.
+  Lemma i_29_30_c : forall opc ip0 ip s, state_closed s -> sres_c (hl s) (i_29_30 F bld P opc ip0 ip s).
+  Proof.
+    intros opc ip0 ip s Hs. unfold i_29_30. destruct (spop s) as [s1 v] eqn:E1. fwd.
+    destruct (op_u32 P ip); [|exact I]. destruct (jump_target _ _); [|exact I]. destruct (as_bool _ _ _); fin.
+  Qed.
+  Lemma i_34_c : forall opc ip0 ip s, state_closed s -> sres_c (hl s) (i_34 opc ip0 ip s).
+  Proof.
+    intros opc ip0 ip s Hs. unfold i_34. destruct (spop s) as [s1 v] eqn:E1. fwd.
+    destruct v; try pn. destruct (vobj_len _ _); [pn|exact I].
+  Qed.
+
+  (* ---- tables ---- *)
+  Lemma i_32_c : forall opc ip0 ip s, state_closed s -> sres_c (hl s) (i_32 F opc ip0 ip s).
+  Proof.
+    intros opc ip0 ip s Hs. unfold i_32. destruct (spop s) as [s1 key] eqn:E1. destruct (spop s1) as [s2 inst] eqn:E2. fwd.
+    destruct (get_table _ _) as [a t| |] eqn:Eg; try fin.
+    destruct (get_table_closed _ _ _ _ Eg Hc0) as [Ha Ht].
+    destruct (tget _ t key) as [r|] eqn:Et; [|exact I]. pn. eapply tget_ok; eauto.
+  Qed.
+  Lemma i_33_c : forall opc ip0 ip s, state_closed s -> sres_c (hl s) (i_33 F opc ip0 ip s).
+  Proof.
+    intros opc ip0 ip s Hs. unfold i_33. cbv zeta.
+    pose proof (spop_n_closed s 3 Hs) as H3.
+    destruct (get_table _ _) as [a t| |] eqn:Eg; try fin.
+    destruct (get_table_closed _ _ _ _ Eg H3) as [Ha Ht].
+    destruct (tinsert _ t _ _) as [t'|] eqn:Et; [|exact I]. cbn [sres_c]. split; [|hl_norm; lia].
+    apply closed_set_table; [exact H3|]. eapply tinsert_ok; [exact Ht| | |exact Et]; rewrite hl_spop_n; apply speek_vok; exact Hs.
+  Qed.
+  Lemma i_40_c : forall opc ip0 ip s, state_closed s -> sres_c (hl s) (i_40 F opc ip0 ip s).
+  Proof.
+    intros opc ip0 ip s Hs. unfold i_40. cbv zeta.
+    pose proof (spop_n_closed s 2 Hs) as H3.
+    destruct (get_table _ _) as [a t| |] eqn:Eg; try fin.
+    destruct (get_table_closed _ _ _ _ Eg H3) as [Ha Ht].
+    destruct (tappend _ t _) as [t'| |] eqn:Et; try exact I. cbn [sres_c]. split; [|hl_norm; lia].
+    apply closed_set_table; [exact H3|]. eapply tappend_ok; [exact Ht| |exact Et]. rewrite hl_spop_n; apply speek_vok; exact Hs.
+  Qed.
+  Lemma i_41_c : forall opc ip0 ip s, state_closed s -> sres_c (hl s) (i_41 F opc ip0 ip s).
+  Proof.
+    intros opc ip0 ip s Hs. unfold i_41. destruct (spop s) as [s1 inst] eqn:E1. fwd.
+    destruct (get_table _ _) as [a t| |] eqn:Eg; try fin.
+    destruct (get_table_closed _ _ _ _ Eg Hc) as [Ha Ht].
+    destruct (tpop _ t) as [[t' v]|] eqn:Et; [|exact I].
+    destruct (tpop_ok _ _ _ _ _ Ht Et) as [Ht' Hv'].
+    apply push_next_c; [apply closed_set_table; assumption|hl_norm; lia|rewrite hl_set_table; exact Hv'].
+  Qed.
+
+  Lemma make_row_gen s3 row s4 ka s5 va k v t1 t2 s :
+    state_closed s -> salloc s (OTable (mkTable [] [])) = (s3, row) -> salloc s3 (OStr str_key) = (s4, ka) ->
+    salloc s4 (OStr str_value) = (s5, va) -> vok (hl s) k -> vok (hl s) v ->
+    forall eq1 eq2, tinsert eq1 (mkTable [] []) (VObj ka) k = Some t1 -> tinsert eq2 t1 (VObj va) v = Some t2 ->
+    state_closed (set_table s5 row t2) /\ hl (set_table s5 row t2) = 3 + hl s /\ vok (3 + hl s) (VObj row).
+  Proof.
+    intros Hs E3 E4 E5 Vk Vv eq1 eq2 T1 T2. fwd. rewrite hl_set_table.
+    split; [|split; [lia|cbn [vok]; rewrite Ha; unfold aok; rewrite Nat2N.id; lia]].
+    apply closed_set_table; [assumption|].
+    eapply tinsert_ok; [| | |exact T2]; [|cbn [vok]; rewrite Ha1; unfold aok; rewrite Nat2N.id; lia|vtac].
+    eapply tinsert_ok; [apply table_ok_empty| | |exact T1]; [cbn [vok]; rewrite Ha0; unfold aok; rewrite Nat2N.id; lia|vtac].
+  Qed.
+
+  Lemma i_39_c : forall opc ip0 ip s, state_closed s -> sres_c (hl s) (i_39 F opc ip0 ip s).
+  Proof.
+    intros opc ip0 ip s Hs. unfold i_39. cbv zeta.
+    pose proof (spop_n_closed s 2 Hs) as H2.
+    destruct (get_table _ _) as [a t| |] eqn:Eg; try fin.
+    destruct (get_table_closed _ _ _ _ Eg H2) as [Ha Ht]. rewrite hl_spop_n in Ht.
+    destruct (speek s 0); try fin. destruct (_ <? 0)%Z; [fin|].
+    assert (Hk : vok (hl s) (if (z <? Z.of_nat (length (tkeys t)))%Z then tnth_key t (Z.to_nat z) else VNil)).
+    { destruct (_ <? _)%Z; [apply tnth_key_ok; exact Ht|exact I]. }
+    destruct (if (z <? Z.of_nat (length (tkeys t)))%Z then tget _ _ _ else _) as [r|] eqn:Er; [|exact I].
+    assert (Hr : vok (hl s) (match r with Some v => v | None => VNil end)).
+    { destruct (z <? Z.of_nat (length (tkeys t)))%Z; [eapply tget_ok; eauto|injection Er as <-; exact I]. }
+    destruct (salloc (spop_n s 2) _) as [s3 row] eqn:E3.
+    destruct (salloc s3 _) as [s4 ka] eqn:E4.
+    destruct (salloc s4 _) as [s5 va] eqn:E5.
+    destruct (tinsert _ _ _ _) as [t1|] eqn:T1; [|exact I]. destruct (tinsert _ t1 _ _) as [t2|] eqn:T2; [|exact I].
+    destruct (make_row_gen _ _ _ _ _ _ _ _ _ _ _ H2 E3 E4 E5 Hk Hr _ _ T1 T2) as (A & B & C).
+    rewrite hl_spop_n in *. apply push_next_c; [exact A|lia|rewrite B; exact C].
+  Qed.
+
+  Lemma i_35_c : forall opc ip0 ip s, state_closed s -> sres_c (hl s) (i_35 P opc ip0 ip s).
+  Proof.
+    intros opc ip0 ip s Hs. unfold i_35. destruct (op_u32 P ip); [|exact I]. destruct (op_u32 P (ip + 4)); [|exact I].
+    cbv zeta. pose proof (slast_vok s Hs) as Hl.
+    destruct (get_table _ _); try fin. destruct (top_offset s); [|exact I].
+    destruct (write_local s _ _ _) as [s1|] eqn:E1; [|fin]. fwd.
+    destruct (write_local s1 _ _ _) as [s2|] eqn:E2; [|fin]. fwd.
+    destruct (op_u32 P (ip + 8)); [|exact I]. destruct (op_u32 P (ip + 8 + 4)); [|exact I].
+    destruct (op_u32 P (ip + 8 + 8)); [|exact I].
+    destruct (write_local s2 _ _ _) as [s3|] eqn:E3; [|fin]. fwd.
+    destruct (write_local s3 _ _ _) as [s4|] eqn:E4; [|fin]. fwd.
+    destruct (write_local s4 _ _ _) as [s5|] eqn:E5; [|fin]. fwd. fin.
+  Qed.
+
+  Lemma i_36_c : forall opc ip0 ip s, state_closed s -> sres_c (hl s) (i_36 F bld P opc ip0 ip s).
+  Proof.
+    intros opc ip0 ip s Hs. unfold i_36. destruct (op_u32 P ip); [|exact I]. destruct (op_u32 P (ip + 4)); [|exact I].
+    destruct (op_u32 P (ip + 8)); [|exact I]. destruct (op_u32 P (ip + 12)); [|exact I].
+    destruct (op_u32 P (ip + 16)); [|exact I]. cbv zeta.
+    destruct (top_offset s) as [off|]; [|exact I]. destruct (to_i64 _ _ _) as [i|]; [|exact I].
+    destruct (get_table _ _) as [a t| |] eqn:Eg; try fin.
+    destruct (get_table_closed _ _ _ _ Eg Hs) as [Ha Ht].
+    destruct (_ && _); [exact I|]. destruct (_ && _); [|pn].
+    pose proof (tnth_key_ok (hl s) t (Z.to_nat i) Ht) as Hk.
+    destruct (tget _ t _) as [r|] eqn:Et; [|exact I].
+    pose proof (tget_ok _ _ _ _ _ Ht Et) as Hr.
+    destruct (write_local s _ _ _) as [s1|] eqn:E1; [|fin]. fwd.
+    destruct (write_local s1 _ _ _) as [s2|] eqn:E2; [|fin]. fwd.
+    destruct (write_local s2 _ _ _) as [s3|] eqn:E3; [|fin]. fwd.
+    destruct (i64_result _); [|exact I].
+    destruct (write_local s3 _ _ _) as [s4|] eqn:E4; [|fin]. fwd. pn.
+  Qed.
+End Step.
